@@ -172,10 +172,12 @@ func (self *visitorUserNode) OnNull() error {
 		self.inskip = false
 		return nil
 	}
-	// self.stk[self.sp].val = &visitorUserNull{}
-	if err := self.incrSP(); err != nil {
-		return err
+	// null means "absent": nothing is encoded and the stack is left alone
+	if self.globalFieldDesc == nil {
+		// null list element
+		return nil
 	}
+	// null member: forget the field; for a map value this closes the pair (key only)
 	return self.onValueEnd()
 }
 
